@@ -1,0 +1,48 @@
+//go:build verif
+
+package cache
+
+// Contracts for the deductive verifier in /verif (comment-only).
+
+//@ pred quiet() { len(calls) == old(len(calls)) }
+
+// Interning never changes the text: the result is equal to the argument.
+//@ initonly StringInterner.entries, TagCache.entries
+//@ lock StringInterner.mtx self i protects entries
+//@   property C13
+//@   inv @every_entry_maps_a_string_to_itself i.entries != nil && (forall k string :: k in i.entries ==> i.entries[k] == k)
+
+//@ func (*StringInterner).Intern
+//@   property C13
+//@   requires i != nil
+//@   acquires i.mtx
+//@   modifies i.entries
+//@   ensures @same_text result == s
+//@   ensures @quiet quiet()
+
+//@ pred distinctNames(ts []m3thrift.MetricTag) { forall p, q int :: 0 <= p && p < q && q < len(ts) ==> ts[p].Name != ts[q].Name }
+
+//@ lock TagCache.mtx self c protects entries
+//@   property C13
+//@   inv @entries_have_distinct_tag_names c.entries != nil && (forall k uint64 :: k in c.entries ==> distinctNames(c.entries[k]))
+
+//@ func (*TagCache).Get
+//@   property C13
+//@   requires c != nil
+//@   acquires c.mtx
+//@   ensures @a_cached_slice_has_distinct_names result1 ==> distinctNames(result0)
+//@   ensures @quiet quiet()
+
+//@ func (*TagCache).Set
+//@   property C13
+//@   requires c != nil && distinctNames(tslice)
+//@   acquires c.mtx
+//@   modifies c.entries
+//@   ensures @the_given_or_the_cached_slice same(result, tslice) || distinctNames(result)
+//@   ensures @quiet quiet()
+
+//@ func (*TagCache).Len
+//@   property C13
+//@   requires c != nil
+//@   acquires c.mtx
+//@   ensures @quiet quiet()
